@@ -312,10 +312,14 @@ func (c *SClient) SendKeepAlive(id int64) error {
 type SBackendConn struct {
 	*BackendConn
 	*recvLog
-	OnRecv func(r Recv)
+	onRecv func(r Recv)
 	stmu   sync.Mutex
 	st     string // serverbound state as the backend sees it
 }
+
+// SetOnRecv installs a callback the reader invokes for every packet received from now on.
+func (sc *SBackendConn) SetOnRecv(f func(r Recv)) { sc.stmu.Lock(); sc.onRecv = f; sc.stmu.Unlock() }
+func (sc *SBackendConn) getOnRecv() func(r Recv) { sc.stmu.Lock(); defer sc.stmu.Unlock(); return sc.onRecv }
 
 func (sc *SBackendConn) state() string { sc.stmu.Lock(); defer sc.stmu.Unlock(); return sc.st }
 func (sc *SBackendConn) setState(s string) { sc.stmu.Lock(); sc.st = s; sc.stmu.Unlock() }
@@ -358,6 +362,7 @@ func (sb *SBackend) Next(d time.Duration) (*SBackendConn, error) {
 func (sc *SBackendConn) read() {
 	defer sc.close()
 	sc.Conn.Timeout = 0
+	_ = sc.Conn.C.SetReadDeadline(time.Time{}) // ReadLogin left a deadline armed
 	for {
 		p, err := sc.ReadPacket()
 		if err != nil {
@@ -380,8 +385,8 @@ func (sc *SBackendConn) read() {
 			}
 		}
 		sc.add(r)
-		if sc.OnRecv != nil {
-			sc.OnRecv(r)
+		if f := sc.getOnRecv(); f != nil {
+			f(r)
 		}
 	}
 }
